@@ -15,11 +15,11 @@ func init() {
 	zzverif.Register("VerifC05DocFormatsLong", VerifC05DocFormatsLong)
 }
 
-func VerifC05DocLayout() { fCheckC05(fGenLayout(false)) }
-func VerifC05DocLayoutLong() { fCheckC05(fGenLayout(true)) }
-func VerifC05DocAmounts() { fCheckC05(fGenAmounts(false)) }
+func VerifC05DocLayout()      { fCheckC05(fGenLayout(false)) }
+func VerifC05DocLayoutLong()  { fCheckC05(fGenLayout(true)) }
+func VerifC05DocAmounts()     { fCheckC05(fGenAmounts(false)) }
 func VerifC05DocAmountsLong() { fCheckC05(fGenAmounts(true)) }
-func VerifC05DocText() { fCheckC05(fGenText(false)) }
-func VerifC05DocTextLong() { fCheckC05(fGenText(true)) }
-func VerifC05DocFormats() { fCheckC05(fGenFormats(false)) }
+func VerifC05DocText()        { fCheckC05(fGenText(false)) }
+func VerifC05DocTextLong()    { fCheckC05(fGenText(true)) }
+func VerifC05DocFormats()     { fCheckC05(fGenFormats(false)) }
 func VerifC05DocFormatsLong() { fCheckC05(fGenFormats(true)) }
